@@ -392,7 +392,7 @@ def clear_rows(cd, a, b):
         cd.g[i - 1] = bytearray(b' ' * cd.W)
 
 
-def outcomes_cls(cd, arg, keyon):
+def outcomes_cls(cd, arg, keyon, bars):
     outs = []
     full = arg == 0 or (arg is None and not cd.act)
     n = cd.copy()
@@ -400,6 +400,10 @@ def outcomes_cls(cd, arg, keyon):
         clear_rows(n, 1, H - 1)
         if not keyon:
             clear_rows(n, H, H)
+        elif cd.W in bars:
+            n.g[H - 1] = bytearray(bars[cd.W])      # the key bar is redrawn
+        else:
+            n.any25 = True
     else:
         clear_rows(n, n.top, n.bot)
     for home in {(1, 1), (n.top, 1)}:
@@ -513,6 +517,7 @@ def _run(case, ops, sess, res):
     if drv.dead:
         return
     mode, keyon = 0, False
+    bars = {}                   # width -> text of the key bar as first seen on row 25
     cands = [Cand(80)]
     obs = drv.observe()
     if obs is None:
@@ -577,9 +582,6 @@ def _run(case, ops, sess, res):
             desc = 'LOCATE %s,%s' % ('' if r is None else r, '' if c is None else c)
             for cd in cands:
                 outs.extend(outcomes_locate(cd, r, c, keyon))
-            if keyon and r == H:
-                # KEY ON: row 25 is not available (accept error only or either? manual silent)
-                pass
             text = b'LOCATE ' + (b'' if r is None else b'%d' % r) + (
                 b'' if c is None else b',%d' % c)
             err = drv.stmt(text)
@@ -587,7 +589,7 @@ def _run(case, ops, sess, res):
             arg = op.get('arg')
             desc = 'CLS %s' % ('' if arg is None else arg)
             for cd in cands:
-                outs.extend(outcomes_cls(cd, arg, keyon))
+                outs.extend(outcomes_cls(cd, arg, keyon, bars))
             err = drv.stmt(b'CLS' + (b'' if arg is None else b' %d' % arg))
         elif kind == 'view':
             a, b = op.get('a'), op.get('b')
@@ -690,6 +692,8 @@ def _run(case, ops, sess, res):
                     if cd.any25:
                         cd.g[H - 1] = bytearray(grid[H - 1])
                         cd.any25 = False
+                        if keyon and kind in ('key', 'width', 'screen') and err == 0:
+                            bars.setdefault(cd.W, bytes(grid[H - 1]))
                     if cd.anycur:
                         if cd.act and not cd.top <= R <= cd.bot:
                             res.fail('invariant.cursor-outside-window',
@@ -950,12 +954,13 @@ def _p(raw, nl=False):
 
 
 REGRESSIONS = [
-    # LOCATE to the last column right after a completely filled line: CSRLIN/POS report (r+1, 1)
+    # fixed 7fd0d51c: LOCATE to the last column right after a completely filled line left
+    # CSRLIN/POS at (r+1, 1)
     {'video': 'cga', 'ops': [_p('x' * 80), {'op': 'locate', 'rk': 'abs', 'rv': 6, 'ck': 'abs',
                                             'cv': 81}]},
     {'video': 'cga', 'ops': [_p('x' * 80), {'op': 'locate', 'rk': 'abs', 'rv': 4, 'ck': 'none',
                                             'cv': 0}]},
-    # KEY ON, cursor right of column 40, WIDTH 40 in text mode: IndexError escapes
+    # fixed 9fc6683d: KEY ON, cursor right of column 40, WIDTH 40 in text mode: IndexError escaped
     # (the graphics-mode variant below is harmless: no character-width lookup there)
     {'video': 'cga', 'ops': [{'op': 'key', 'on': True},
                              {'op': 'locate', 'rk': 'abs', 'rv': 2, 'ck': 'abs', 'cv': 51},
